@@ -122,7 +122,7 @@ def sweep_payloads(cmd, rng):
 
 def plan(tier, seed):
     items = []
-    nh = 400 if tier == "quick" else 60000
+    nh = 400 if tier == "quick" else 240000
     per = 20
     for i in range(nh // per):
         variant = "asan2" if i % 3 == 2 else "asan"
